@@ -239,8 +239,12 @@ var validMySQLColumnTypes = map[string]bool{
 	"ENUM": true, "SET": true,
 }
 
-// mysqlColumnTypePattern matches valid column type definitions
-var mysqlColumnTypePattern = regexp.MustCompile(`^[A-Za-z][A-Za-z0-9_ (),.]*$`)
+// mysqlColumnTypePattern matches valid column type definitions: words, and
+// parenthesised groups that hold only digits, spaces and commas (VARCHAR(255),
+// NUMERIC(10, 2)). A comma or an unbalanced parenthesis outside such a group
+// would end the column definition inside CREATE TABLE (...) and start a new
+// column, constraint or table clause.
+var mysqlColumnTypePattern = regexp.MustCompile(`^[A-Za-z][A-Za-z0-9_ .]*(\([0-9 ,]*\)[A-Za-z0-9_ .]*)*$`)
 
 // sanitizeMySQLColumnType validates a MySQL column type definition
 func sanitizeMySQLColumnType(colType string) (string, error) {
